@@ -2,6 +2,7 @@ package main
 
 import (
 	"bytes"
+	"encoding/binary"
 	"encoding/json"
 	"errors"
 	"fmt"
@@ -79,6 +80,7 @@ type c17State struct {
 	tw       *sst.TableWriter
 	fresh    *sst.Table
 	reopened *sst.Table
+	damaged  *sst.Table
 	tables   []*sst.Table
 	runInput []c17Entry
 	ran      bool
@@ -270,6 +272,41 @@ func (s *c17State) do(op string) (out []string) {
 			out = append(out, c17Scan(s.fresh, lib.UnHex(f[1])))
 		case "rscan":
 			out = append(out, c17Scan(s.reopened, lib.UnHex(f[1])))
+		case "corrupt":
+			// a damaged copy of the selected table's file under the same name in a separate file system
+			d := s.fresh.Document()
+			b := append([]byte(nil), s.fileOf(s.fresh)...)
+			if f[1] == "ver" {
+				if len(b) >= 4 {
+					binary.LittleEndian.PutUint32(b[len(b)-4:], uint32(u(2)))
+				}
+			} else {
+				b = b[:max(0, len(b)-int(u(2)))]
+			}
+			fs2 := storage.NewMemoryFilesystem()
+			file := fs2.New(strings.TrimPrefix(d.URI, "memory://"))
+			file.Write(b)
+			file.Save()
+			s.damaged = sst.NewTableFromDocument(fs2, &kv.AllDataOwnership{}, d)
+			s.keep = append(s.keep, s.damaged)
+			out = append(out, "ok")
+		case "cget", "cscan":
+			if s.damaged == nil {
+				out = append(out, "loaderr")
+				return out
+			}
+			func() {
+				defer func() {
+					if r := recover(); r != nil {
+						out = append(out, "loaderr") // loadFooter / bloom.Decode / SearchIndexDecode panic on a short file
+					}
+				}()
+				if f[0] == "cget" {
+					out = append(out, c17Get(s.damaged, lib.UnHex(f[1])))
+				} else {
+					out = append(out, c17Scan(s.damaged, lib.UnHex(f[1])))
+				}
+			}()
 		case "rdoc":
 			d := s.reopened.Document()
 			out = append(out, fmt.Sprintf("%s %s %d %d", lib.Hex(d.StartKey), lib.Hex(d.EndKey), d.Size, d.EntriesSize))
@@ -511,6 +548,18 @@ func c17GenTable(r *lib.Rng, tier string) lib.Case {
 	es := c17Run(r, n, 12)
 	c := lib.Case{Header: "M C17", Ops: []string{"tbl " + c17ShowEntries(es)}, Tags: []string{"table"}}
 	c.Ops = append(c.Ops, c17TableOps(r, es, 24)...)
+	if r.Chance(1, 3) {
+		// robustness outside the property's statement (M-obs): wrong version, truncated file
+		if r.Bool() {
+			c.Ops = append(c.Ops, fmt.Sprintf("corrupt ver %d", r.Intn(5)))
+		} else {
+			c.Ops = append(c.Ops, fmt.Sprintf("corrupt trunc %d", lib.Pick(r, []int{1, 3, 4, 5, 8, 11, 12, 13, 20, 100, 4200})))
+		}
+		for j := 0; j < 3 && len(es) > 0; j++ {
+			c.Ops = append(c.Ops, "cget "+lib.Hex(lib.Pick(r, es).k))
+		}
+		c.Ops = append(c.Ops, "cget "+lib.Hex(c17Key(r)), "cscan -")
+	}
 	c.Ops = append(c.Ops, "info")
 	if len(es) > 16 {
 		c.Tags = append(c.Tags, "multi-index")
@@ -797,7 +846,7 @@ func propC17() *lib.Prop {
 				return false
 			}
 			switch f[0] {
-			case "info", "runinfo", "wfile", "wstate", "wput", "wdel":
+			case "info", "runinfo", "wfile", "wstate", "wput", "wdel", "corrupt", "cget", "cscan":
 				return true
 			}
 			return false
